@@ -134,6 +134,10 @@ def c02_append(ctx):
         if not fn:
             continue
         cs = [bb for bb, t in calls(fn, 'Scheduler::schedule_job_desync')]
+        # delegating to another scheduling method of the same scheduler is as good (it queues before it returns)
+        for other in ('desync', 'future_desync', 'future_sync', 'after'):
+            if S + other != name:
+                cs += [bb for bb, t in fn.calls() if (t['func'].get('fn') or '') == S + other and t['args'] and render(fn.expr_of_operand(t['args'][0])) == 'self']
         key = short(name) + '|schedules-in-own-body'
         if cs and all_paths_pass(fn, 0, cs):
             out.append(ok('ORD-C02-append', key, 'schedule_job_desync is called in the function\'s own body on every path', fn=name))
@@ -257,6 +261,26 @@ def c07_own(ctx):
             out.append(ok('ORD-C07-own', 'drop', 'Drop for SchedulerFuture has no effect', fn=d.name))
     else:
         out.append(ok('ORD-C07-own', 'drop', 'SchedulerFuture has no Drop impl'))
+    # a Scheduler works with its own core: its methods never go through the process-wide scheduler (the free functions and `scheduler()`),
+    # or the job, its wakers and its reschedules end up on another pool than the one the caller configured
+    FREE = ('desync::scheduler', 'desync::desync', 'desync::sync', 'desync::try_sync', 'desync::future_desync', 'desync::future_sync', 'desync::after', 'desync::queue_async')
+    leaks = []
+    nmeth = 0
+    for f_ in F.crate_fns():
+        root_ = f_.root or f_.name
+        if not root_.startswith('desync::Scheduler::'):
+            continue
+        nmeth += 1
+        for bb_, t_ in f_.calls():
+            callee_ = t_['func'].get('fn') or ''
+            if callee_ in FREE or callee_.startswith('<desync::SCHEDULER') or callee_.startswith('desync::SCHEDULER'):
+                leaks.append((f_, callee_))
+    if leaks:
+        out.append(bad('ORD-C07-own', 'Scheduler|uses-its-own-core', '%s calls %s: the work is queued on (and woken through) the process-wide scheduler instead of this one, so a private scheduler\'s threads never run it' % (short(leaks[0][0].name), short(leaks[0][1])), fn=leaks[0][0].name))
+    elif nmeth < 10:
+        out.append(undecided('ORD-C07-own', 'Scheduler|uses-its-own-core', 'only %d bodies of Scheduler methods found' % nmeth))
+    else:
+        out.append(ok('ORD-C07-own', 'Scheduler|uses-its-own-core', 'no method of Scheduler goes through the process-wide scheduler (%d bodies)' % nmeth))
     # while an operation is suspended (queue parked) the scheduler holds no reference to the queue: the wakers handed to the operation's
     # future are what keeps the queue, the suspended job and everything behind it alive once the caller has dropped its handles
     for wk in ('desync::WakeQueue', 'desync::WakeThread'):
